@@ -76,7 +76,7 @@ ABSENT = ("zz", 7)          # indices that exist in none of the instances
 def universe(tier, kind):
     ud = jsonvals.universe_distinct_leaves()
     if tier == "thorough":
-        more = jsonvals.universe_small() if kind == "pairs" else _e1.get_universe("quick")
+        more = jsonvals.universe_pairs_quick() if kind == "pairs" else _e1.get_universe("quick")
         seen = set(json.dumps(x) for x in ud)
         ud = ud + [x for x in more if json.dumps(x) not in seen]
     return ud
